@@ -684,6 +684,20 @@ def _struct_unpack(fmt, data):
     return struct.unpack(fmt, data)
 
 
+def _struct_unpack_from(fmt, buffer, offset=0):
+    """struct.unpack_from: CPython needs at least calcsize(fmt) bytes behind offset and ignores what follows; expressed
+    through struct.unpack of the exact slice (the C function itself does not take the engine's symbolic bytes)"""
+    import struct
+    from engine.chplugin import semantic_text
+    fmt = semantic_text(fmt)
+    need = struct.calcsize(fmt)
+    if offset < 0:
+        offset = len(buffer) + offset
+    if offset < 0 or len(buffer) - offset < need:
+        raise struct.error("unpack_from requires a buffer of at least %d bytes" % (need + max(offset, 0)))
+    return struct.unpack(fmt, buffer[offset:offset + need])
+
+
 def _struct_pack_method(self, *args):
     """struct.Struct(fmt).pack(*args) (six.int2byte is Struct('>B').pack): route through CrossHair's struct.pack model."""
     import struct
@@ -713,6 +727,8 @@ def install(INSTALLED, contracts=()):
     import struct
     _PATCH_REGISTRATIONS[struct.pack] = _struct_pack
     INSTALLED["models"].append("struct.pack('<N>s', bytes) = the bytes (padded/cut to N); struct.pack of a big-endian integer format applied to an int the harness composed from bytes returns those bytes (identity int.to_bytes(int.from_bytes(b)) == b)")
+    _PATCH_REGISTRATIONS[struct.unpack_from] = _struct_unpack_from
+    INSTALLED["models"].append("struct.unpack_from(fmt, buf, offset) = struct.unpack(fmt, buf[offset:offset+calcsize(fmt)]) with CPython's length rule")
     _PATCH_REGISTRATIONS[struct.unpack] = _struct_unpack
     INSTALLED["models"].append("struct.unpack: explicit 'buffer has exactly calcsize(fmt) bytes' check (struct.error otherwise) in front of CrossHair's conversion model")
     _PATCH_REGISTRATIONS[struct.Struct.pack] = _struct_pack_method
